@@ -68,8 +68,16 @@ def history_cases(rnd, n, steps):
                 st.append({"impl": f"p[{a}] {op} {v}", "shadow": f"q[{a}] = q[{a}] {op[0]} {v}"})
             elif c < 0.8:
                 st.append({"impl": f"p[{a}] = ndx.reshape(p[{b}], [-1])", "shadow": f"q[{a}] = lay(lambda x: np.reshape(x, [-1]).copy(), q[{b}])"})
-            elif c < 0.9:
+            elif c < 0.86:
                 st.append({"impl": f"p[{a}] = ndx.astype(p[{b}], p[{b}].dtype)", "shadow": f"q[{a}] = q[{b}].copy()"})
+            elif c < 0.9:
+                # two casts of one source with a write to the first result in between
+                c2 = rnd.randrange(4)
+                t_ = "float32" if d != "float32" else "float64"
+                nt = ("ndx.n" if ops.nullable(d) else "ndx.") + t_
+                v = rnd.randint(-9, 9)
+                st.append({"impl": f"p[{a}] = ndx.astype(p[{b}], {nt}); p[{a}][...] = {v}; p[{c2}] = ndx.astype(p[{b}], {nt})" if a != b else f"p[{c2}] = ndx.astype(p[{b}], {nt})",
+                           "shadow": (f"s_ = q[{b}].astype(np.{t_}); q[{a}] = s_.copy(); q[{a}][...] = {v}; q[{c2}] = s_.copy()" if a != b else f"q[{c2}] = q[{b}].astype(np.{t_})")})
             else:
                 st.append({"impl": f"p[{a}] = ndx.flip(p[{b}])", "shadow": f"q[{a}] = lay(lambda x: np.flip(x).copy(), q[{b}])"})
         cases.append({"id": f"H-{i}", "pool": pool, "steps": st, "dtype": d})
@@ -173,7 +181,7 @@ def run(ctx):
     ctx.sample({"alias_row": ac[5]["impl"]})
     f = ctx.work / "C09_static.v"
     f.write_text((core.COQ / "Props" / "C09.v").read_text())
-    ctx.compile("Props/C09.v: assignment frame/target/shape on the ScatterND model; heap frame through whole programs (no instruction but an in-place update of l changes l)", f, kind="theorem")
+    ctx.compile("Props/C09.v: assignment frame/target/shape on the ScatterND model; C09_setitem_nd: for every tensor, rank and basic index tuple x[index] = v writes exactly the elements NumPy addresses (k-th addressed element := k-th update, addressed positions pairwise distinct) and nothing else; heap frame through whole programs (no instruction but an in-place update of l changes l)", f, kind="theorem")
     ctx.coverage.update({"rule": "in-Coq correspondence of x[index] = scalar on token tensors; NumPy sweep over scalar/array/mask assignment and augmented operators for 7 dtypes; alias table: ~45 public functions/expressions x 4 dtype classes x {mutate result, mutate argument}; random histories (4-array pool, 20/40 steps: f(a), copy, indexed assignment, op=, reshape, astype, flip) against a NumPy model with independent copies, every array compared after every step. Distinct by canonical case / history."})
 
 
